@@ -354,10 +354,15 @@ fn new_optional_field(r: &mut Rng, u: &Universe, cfg: &GenCfg, fields: &[Field],
 
 /// Apply 1..=4 documented-compatible edits. Returns the edited universe and a description of the edits.
 pub fn edit_universe(r: &mut Rng, base: &Universe, cfg: &GenCfg) -> (Universe, Vec<String>) {
-    let mut u = base.clone();
-    let mut log = Vec::new();
     let n = 1 + r.below(4);
-    let mut serial = 0;
+    edit_from(r, base, base.clone(), cfg, n)
+}
+
+/// Apply `n` random documented-compatible edits to `start` (itself a compatible edit of `base`).
+pub fn edit_from(r: &mut Rng, base: &Universe, start: Universe, cfg: &GenCfg, n: usize) -> (Universe, Vec<String>) {
+    let mut u = start;
+    let mut log = Vec::new();
+    let mut serial = 100 + r.below(800);
     for _ in 0 .. n {
         let di = r.below(u.defs.len());
         let snapshot = u.clone();
@@ -429,6 +434,137 @@ pub fn edit_universe(r: &mut Rng, base: &Universe, cfg: &GenCfg) -> (Universe, V
     (u, log)
 }
 
+
+// ---- targeted version pairs ------------------------------------------------------------------------
+
+fn plain_struct(r: &mut Rng, u: &Universe, cfg: &GenCfg, name: String) -> StructDef {
+    loop {
+        let s = gen_struct(r, u, cfg, name.clone());
+        if !s.transparent && !s.generic && s.shape != Shape::Unit && s.fields.iter().filter(|f| !f.skip).count() >= 1 && s.fields.len() < 12 { return s }
+    }
+}
+
+/// Insert `f` so that every other field of `s` has a larger index (they are all "later siblings").
+fn insert_first(s: &mut StructDef, mut f: Field, r: &mut Rng) {
+    for x in s.fields.iter_mut() { if !x.skip { x.idx += 1 } }
+    f.idx = 0;
+    let pos = r.below(s.fields.len() + 1);
+    s.fields.insert(pos, f);
+}
+
+/// A (base, newer, edit log) pair whose first edit is of the kind selected by `focus`; up to two random
+/// compatible edits follow. focus: 0 = random, 1 = add variant to an optional-only enum (regular / index_only),
+/// 2 = unit variant -> variant with optional fields, 3 = tagged optional field at a gap index, 4 = drop optional field.
+pub fn gen_pair(r: &mut Rng, cfg: &GenCfg, focus: usize, prefix: &str) -> Option<(Universe, Universe, Vec<String>)> {
+    let mut log = Vec::new();
+    let (base, mut newer) = match focus {
+        1 => {
+            let mut e = gen_enum(r, &Universe { defs: vec![] }, cfg, format!("{}T0", prefix));
+            if r.bool_() && !e.index_only {
+                e.index_only = true; e.tag = None;
+                for v in e.variants.iter_mut() { v.shape = Shape::Unit; v.fields.clear(); v.tag = None; v.encoding = None }
+            }
+            let mut u = Universe { defs: vec![Def::Enum(e)] };
+            let mut s = plain_struct(r, &Universe { defs: vec![] }, cfg, format!("{}T1", prefix));
+            let tag = if r.chance(25) { Some(*r.pick(&TAGS)) } else { None };
+            insert_first(&mut s, Field { idx: 0, b: false, ty: Ty::Enum(0), optional: true, tag, skip: false, name: "choice".into(), long_attr: r.bool_() }, r);
+            u.defs.push(Def::Struct(s));
+            fix_b(&mut u);
+            let mut n = u.clone();
+            if let Def::Enum(e) = &mut n.defs[0] {
+                let max = e.variants.iter().map(|v| v.idx).max().unwrap_or(0);
+                let idx = max + 1 + r.below(3) as u32;
+                let shape = if e.index_only { Shape::Unit } else { *r.pick(&[Shape::Unit, Shape::Tuple, Shape::Named]) };
+                let venc = e.enc();
+                let fields = gen_fields(r, &Universe { defs: vec![] }, cfg, venc, shape, 3, "nvf", false, false);
+                let tag = if !e.index_only && r.chance(25) { Some(*r.pick(&TAGS)) } else { None };
+                log.push(format!("{}: add variant #{} ({})", e.name, idx, if e.index_only { "index_only" } else { "regular" }));
+                e.variants.push(Variant { idx, name: "Newest".into(), shape, encoding: None, tag, fields });
+            }
+            (u, n)
+        }
+        2 => {
+            let mut e = gen_enum(r, &Universe { defs: vec![] }, cfg, format!("{}T0", prefix));
+            e.index_only = false;
+            if !e.variants.iter().any(|v| v.shape == Shape::Unit) { let k = r.below(e.variants.len()); e.variants[k].shape = Shape::Unit; e.variants[k].fields.clear() }
+            let mut u = Universe { defs: vec![Def::Enum(e)] };
+            let mut s = plain_struct(r, &Universe { defs: vec![] }, cfg, format!("{}T1", prefix));
+            let optional = r.bool_();
+            insert_first(&mut s, Field { idx: 0, b: false, ty: Ty::Enum(0), optional, tag: None, skip: false, name: "state".into(), long_attr: false }, r);
+            u.defs.push(Def::Struct(s));
+            fix_b(&mut u);
+            let mut n = u.clone();
+            if let Def::Enum(e) = &mut n.defs[0] {
+                let units: Vec<usize> = e.variants.iter().enumerate().filter(|(_, v)| v.shape == Shape::Unit).map(|(i, _)| i).collect();
+                let k = *r.pick(&units);
+                let venc = e.variants[k].enc(e);
+                let shape = if r.bool_() { Shape::Tuple } else { Shape::Named };
+                let fields: Vec<Field> = gen_fields(r, &Universe { defs: vec![] }, cfg, venc, shape, 3, "uvf", true, false).into_iter().filter(|f| !f.skip).collect();
+                log.push(format!("{}::{}: unit variant -> {:?} variant with {} optional fields", e.name, e.variants[k].name, shape, fields.len()));
+                e.variants[k].shape = shape;
+                e.variants[k].fields = fields;
+            }
+            (u, n)
+        }
+        3 => {
+            let mut s = plain_struct(r, &Universe { defs: vec![] }, cfg, format!("{}T0", prefix));
+            // make sure there is a gap below the highest index
+            let mut used: Vec<u32> = s.fields.iter().filter(|f| !f.skip).map(|f| f.idx).collect();
+            used.sort_unstable();
+            let max = *used.last().unwrap();
+            if (0 .. max).all(|i| used.contains(&i)) { for f in s.fields.iter_mut() { if !f.skip && f.idx == max { f.idx += 1 + r.below(3) as u32 } } }
+            let u = Universe { defs: vec![Def::Struct(s)] };
+            let mut n = u.clone();
+            if let Def::Struct(s) = &mut n.defs[0] {
+                let used: Vec<u32> = s.fields.iter().filter(|f| !f.skip).map(|f| f.idx).collect();
+                let max = used.iter().copied().max().unwrap();
+                let gaps: Vec<u32> = (0 .. max).filter(|i| !used.contains(i)).collect();
+                let mut f = new_optional_field(r, &Universe { defs: vec![] }, cfg, &s.fields, s.enc(), "gapfill".into(), &[]);
+                f.idx = *r.pick(&gaps);
+                f.tag = Some(*r.pick(&TAGS));
+                log.push(format!("{}: add tagged optional field at gap index #{}", s.name, f.idx));
+                let pos = r.below(s.fields.len() + 1);
+                s.fields.insert(pos, f);
+            }
+            (u, n)
+        }
+        4 => {
+            let mut s = plain_struct(r, &Universe { defs: vec![] }, cfg, format!("{}T0", prefix));
+            if !s.fields.iter().any(|f| !f.skip && f.optional) || s.fields.iter().filter(|f| !f.skip).count() < 2 {
+                let f = new_optional_field(r, &Universe { defs: vec![] }, cfg, &s.fields, s.enc(), "doomed".into(), &[]);
+                s.fields.push(f);
+                if s.fields.iter().filter(|f| !f.skip).count() < 2 { let f2 = new_optional_field(r, &Universe { defs: vec![] }, cfg, &s.fields, s.enc(), "other".into(), &[]); s.fields.push(f2) }
+            }
+            let u = Universe { defs: vec![Def::Struct(s)] };
+            let mut n = u.clone();
+            if let Def::Struct(s) = &mut n.defs[0] {
+                let cands: Vec<usize> = s.fields.iter().enumerate().filter(|(_, f)| !f.skip && f.optional).map(|(i, _)| i).collect();
+                let k = *r.pick(&cands);
+                log.push(format!("{}: drop optional field #{}", s.name, s.fields[k].idx));
+                s.fields.remove(k);
+            }
+            (u, n)
+        }
+        _ => {
+            let mut base = gen_universe(r, cfg, prefix);
+            let mut tries = 0;
+            while !matches!(base.defs.last().unwrap(), Def::Struct(s) if !s.transparent) && tries < 50 { base = gen_universe(r, cfg, prefix); tries += 1 }
+            if !matches!(base.defs.last().unwrap(), Def::Struct(s) if !s.transparent) { return None }
+            let n = base.clone();
+            (base, n)
+        }
+    };
+    // further random compatible edits on top (relative to the *base*, so indices are never re-used)
+    let extra = if focus == 0 { 1 + r.below(4) } else { r.below(3) };
+    if extra > 0 {
+        let (n2, l2) = edit_from(r, &base, newer, cfg, extra);
+        newer = n2;
+        log.extend(l2);
+    }
+    fix_b(&mut newer);
+    Some((base, newer, log))
+}
+
 /// Rename every identifier and shuffle declaration orders and n/b spellings where that cannot change the
 /// decoded representation (second spelling of the same schema; C08's metamorphic leg).
 pub fn respell(r: &mut Rng, base: &Universe, prefix: &str) -> Universe {
@@ -464,14 +600,14 @@ fn flip_b(r: &mut Rng, f: &mut Field) {
 fn rust_str(s: &str) -> String { format!("{:?}", s) }
 
 /// Generate `OUT_DIR/generated.rs` for chunk `chunk` of `nchunks`.
-/// Environment: VERIF_SCHEMA_SEED (default 1), VERIF_SCHEMA_COUNT (default 240), VERIF_PAIR_COUNT (default 96).
+/// Environment: VERIF_SCHEMA_SEED (default 1), VERIF_SCHEMA_COUNT (default 240), VERIF_PAIR_COUNT (default 120).
 pub fn build_chunk(chunk: usize, nchunks: usize) {
     println!("cargo:rerun-if-env-changed=VERIF_SCHEMA_SEED");
     println!("cargo:rerun-if-env-changed=VERIF_SCHEMA_COUNT");
     println!("cargo:rerun-if-env-changed=VERIF_PAIR_COUNT");
     let seed: u64 = std::env::var("VERIF_SCHEMA_SEED").ok().and_then(|s| s.parse().ok()).unwrap_or(1);
     let nschemas: usize = std::env::var("VERIF_SCHEMA_COUNT").ok().and_then(|s| s.parse().ok()).unwrap_or(240);
-    let npairs: usize = std::env::var("VERIF_PAIR_COUNT").ok().and_then(|s| s.parse().ok()).unwrap_or(96);
+    let npairs: usize = std::env::var("VERIF_PAIR_COUNT").ok().and_then(|s| s.parse().ok()).unwrap_or(120);
     let out = std::path::PathBuf::from(std::env::var("OUT_DIR").unwrap()).join("generated.rs");
     let mut src = String::new();
     let mut roots = String::new();
@@ -491,11 +627,7 @@ pub fn build_chunk(chunk: usize, nchunks: usize) {
     for i in (0 .. npairs).filter(|i| i % nchunks == chunk) {
         let mut r = Rng::new(seed.wrapping_mul(7_000_003).wrapping_add(0x5EED_0000 + i as u64));
         // top-level enums cannot change compatibly: pairs are rooted at structs
-        let mut base = gen_universe(&mut r, &cfg, &format!("P{}o", i));
-        let mut tries = 0;
-        while !matches!(base.defs.last().unwrap(), Def::Struct(s) if !s.transparent) && tries < 50 { base = gen_universe(&mut r, &cfg, &format!("P{}o", i)); tries += 1 }
-        if !matches!(base.defs.last().unwrap(), Def::Struct(s) if !s.transparent) { continue }
-        let (mut newer, log) = edit_universe(&mut r, &base, &cfg);
+        let (base, mut newer, log) = match gen_pair(&mut r, &cfg, i % 5, &format!("P{}o", i)) { Some(x) => x, None => continue };
         for d in newer.defs.iter_mut() { match d { Def::Struct(s) => s.name = s.name.replacen("o", "n", 1), Def::Enum(e) => e.name = e.name.replacen("o", "n", 1) } }
         src.push_str(&emit::universe_source(&base));
         src.push_str(&emit::universe_source(&newer));
